@@ -14,6 +14,7 @@ Every step sets a unique status ``S<i>`` at entry and appends to ``self.trace`` 
 auto-persisted member, so the trace survives checkpoints).
 """
 import asyncio
+import copy
 import json
 
 import plumpy
@@ -111,6 +112,13 @@ class ProgBase(plumpy.Process):
     def _enter(self, i, args, kwargs):
         self._t('enter', i, self.paused, self.status, _jsonable(args), _jsonable(kwargs), _cur_ok(self))
         self.set_status('S%d' % i)
+        if self.PROGRAM.get('mutate_args'):
+            # the step modifies its (mutable) arguments in place -- a checkpoint taken before must not see this
+            for value in list(args) + list(kwargs.values()):
+                if isinstance(value, list):
+                    value.append('mutated-by-step-%d' % i)
+                elif isinstance(value, dict):
+                    value['mutated-by-step'] = i
         rec = getattr(self, '_rec', None)
         if rec is not None:
             rec.fire('step', self, i)
@@ -141,9 +149,9 @@ class ProgBase(plumpy.Process):
         kind = ret[0]
         self._t('leave', i, kind)
         if kind == 'cont':
-            return ps.Continue(self._next_fn(i), *ret[1], **ret[2])
+            return ps.Continue(self._next_fn(i), *copy.deepcopy(ret[1]), **copy.deepcopy(ret[2]))
         if kind == 'wait':
-            return ps.Wait(self._next_fn(i), ret[1], ret[2])
+            return ps.Wait(self._next_fn(i), ret[1], copy.deepcopy(ret[2]))
         if kind == 'value':
             return ret[1]
         if kind == 'stop':
